@@ -35,13 +35,22 @@ KindL == {Blk(kd, al, h, 1, bu, 1, a, 1, 0, b, t1, 400) : kd \in FCR, al \in {FA
 \* the 1-D cylinder option: block type (ineligible members in every position), height, density of nuclide 1, both temperatures
 \* (no two different temperature pairs have the same block average: the copied candidate is decided by a float comparison)
 CylS  == {Blk(kd, FALSE, h, 1, bu, 1, a, 1, 1, 2, t1, 300) : kd \in FR, h \in {1, 3}, bu \in {2}, a \in {0, 2}, t1 \in {400, 700}}
-CylM  == {Blk(kd, FALSE, h, 1, bu, hm, a, 1, 1, 2, t1, t2) : kd \in FR, h \in {1, 3}, bu \in {0, 4}, hm \in {1}, a \in {0, 1, 2}, t1 \in {400, 700}, t2 \in {300, 520}}
+CylM  == {Blk(kd, FALSE, h, 1, a + 1, 1, a, 1, 1, 2, t1, t2) : kd \in FR, h \in {1, 3}, a \in {0, 1, 2}, t1 \in {400, 700}, t2 \in {300, 520}}
 CylL  == {Blk(kd, FALSE, h, 1, bu, hm, a, 1, b, 2, t1, t2) : kd \in FR, h \in {1, 2, 3}, bu \in {0, 4}, hm \in {1, 2}, a \in {0, 1, 2}, b \in {0, 2}, t1 \in {400, 700}, t2 \in {300, 520}}
 CylTri == {Blk(kd, FALSE, h, 1, a, 1, a, 1, 1, 2, 400 + 100 * a, 300) : kd \in FR, h \in {1, 3}, a \in {0, 2}}
 \* blocks that carry a lumped-fission-product collection (what depletion models put on fuel blocks)
 LfpS  == {[Blk("fuel", FALSE, h, 1, bu, 1, 1, 1, 1, 1, 600, 400) EXCEPT !.lfp = l] : h \in {1, 2}, bu \in {0, 3}, l \in BOOLEAN}
 \* components stored in a different order than the sorted one (two components: both orders)
 OrdS  == {[Blk("fuel", FALSE, h, 1, 2, 1, a, 1, 1, 2, 600, 400) EXCEPT !.ord = o] : h \in {1, 2}, a \in {0, 2}, o \in {<<1, 2>>, <<2, 1>>}}
+\* three components (areas 1, 2, 4; holding nuclides {1,2}, {2,3}, {3,4}) stored in every one of the six orders; used with the
+\* constants of XsGroupsRep_perm.cfg only
+McCompArea3 == <<1, 2, 4>>
+McHolds3    == <<{1, 2}, {2, 3}, {3, 4}>>
+Blk3(kd, h, a, o) == [kind |-> kd, alt |-> FALSE, h |-> h, w |-> 1, bu |-> a, hm |-> 1,
+                      n |-> <<<<a, 1, 0, 0>>, <<0, 1, 2, 0>>, <<0, 0, 1, a>>>>, t |-> <<700, 500, 400>>, ord |-> o, lfp |-> FALSE]
+Perms3 == {<<1, 2, 3>>, <<1, 3, 2>>, <<2, 1, 3>>, <<2, 3, 1>>, <<3, 1, 2>>, <<3, 2, 1>>}
+PermS == {Blk3("fuel", 1 + a \div 2, a, o) : a \in {0, 2}, o \in Perms3}
+FamsPerm == {"perm"}
 \* collections of three and four: everything varies a little
 TriX  == {Blk(kd, FALSE, 1 + p[1] \div 2, p[1], p[3], p[2], p[2], 1, 1, 1, 600 + 50 * p[1], 400) : kd \in FR, p \in {<<0, 0, 0>>, <<2, 2, 3>>, <<1, 1, 8>>}}
 TriS  == {Blk(kd, FALSE, h, p[1], p[3], p[2], p[2], 1, 1, 1, 600 + 50 * p[1], 400) : kd \in FR, h \in {1, 2}, p \in {<<0, 0, 0>>, <<2, 2, 3>>}}
@@ -52,7 +61,7 @@ OptsDens == {Opt("Average", "fuel", FALSE), Opt("Average", "all", TRUE), Opt("Fl
 OptsTemp == {Opt("Average", "fuel", TRUE), Opt("FluxWeightedAverage", "all", FALSE), Opt("Median", "fuel", FALSE)}
 OptsBurn == {Opt("Average", "fuel", FALSE), Opt("FluxWeightedAverage", "fuel", FALSE), Opt("Median", "fuel", FALSE), Opt("Median", "all", FALSE)}
 OptsKind == {Opt("Average", "fuelcontrol", TRUE), Opt("Average", "fuel", TRUE), Opt("Median", "fuelcontrol", FALSE)}
-OptsCyl  == {Opt("ComponentAverage1DCylinder", "fuel", FALSE), Opt("ComponentAverage1DCylinder", "all", FALSE)}
+OptsCyl  == {Opt("ComponentAverage1DCylinder", "fuel", FALSE), Opt("ComponentAverage1DCylinder", "all", FALSE), Opt("ComponentAverage1DSlab", "fuel", FALSE)}
 OptsLfp  == {Opt("Median", "fuel", FALSE), Opt("Average", "fuel", FALSE), Opt("ComponentAverage1DCylinder", "fuel", FALSE)}
 OptsOrd  == {Opt("Average", "fuel", TRUE), Opt("ComponentAverage1DCylinder", "fuel", FALSE), Opt("Median", "fuel", FALSE)}
 OptsTri  == {Opt("Average", "fuel", FALSE), Opt("FluxWeightedAverage", "fuel", TRUE), Opt("Median", "fuel", FALSE), Opt("Median", "all", FALSE), Opt("Average", "all", TRUE)}
@@ -61,7 +70,7 @@ Fams == {"dens", "temp", "burn", "kind", "tri", "cyl", "cyl3", "lfp", "ord"}
 OptsFor(f) == CASE f = "dens" -> OptsDens [] f = "temp" -> OptsTemp [] f = "burn" -> OptsBurn [] f = "kind" -> OptsKind [] f = "tri" -> OptsTri
                 [] f \in {"cyl", "cyl3"} -> OptsCyl [] f = "lfp" -> OptsLfp [] f \in {"ord", "perm"} -> OptsOrd
 \* laws, quick: small domains, pairs (triples for "tri")
-Extra(f) == CASE f = "cyl3" -> CylTri [] f = "lfp" -> LfpS [] f = "ord" -> OrdS
+Extra(f) == CASE f = "cyl3" -> CylTri [] f = "lfp" -> LfpS [] f = "ord" -> OrdS [] f = "perm" -> PermS
 DomMcQ(f) == CASE f = "dens" -> DensX [] f = "temp" -> TempS [] f = "burn" -> BurnX [] f = "kind" -> KindX [] f = "tri" -> TriX
                [] f = "cyl" -> CylS [] OTHER -> Extra(f)
 MaxMcQ(f) == IF f \in {"tri", "cyl3"} THEN 3 ELSE 2
